@@ -1,1 +1,88 @@
 // harnesses for src/toc.rs (child module: sees private items of its parent)
+#![allow(unused_imports, static_mut_refs, clippy::all, clippy::pedantic)]
+use super::*;
+use crate::verif_env::*;
+
+#[path = "/verif/harness/playback/toc.rs"]
+mod playback;
+
+// C20: the TOC checksum gate. `Toc::verify_checksum` is the only integrity check on the
+// paths that decode a TOC without a valid footer (open()'s fallback, doctor). The three
+// encoders (current, legacy V2, legacy V1) and the digest are ghosts: the encoders return
+// an empty buffer and every digest computation returns the next of three ARBITRARY 32-byte
+// values. Obligation: verify_checksum accepts iff the stored checksum equals one of the
+// digests it computed — for every stored checksum, including all-zero and all-0xFF ones.
+static mut DIGESTS: [[u8; 32]; 3] = [[0u8; 32]; 3];
+static mut N_DIGEST: usize = 0;
+fn g_encode_toc(_t: &Toc) -> Result<Vec<u8>> { Ok(Vec::new()) }
+fn g_encode_v1(_t: &LegacyTocV1) -> Result<Vec<u8>> { Ok(Vec::new()) }
+fn g_encode_v2(_t: &LegacyTocV2) -> Result<Vec<u8>> { Ok(Vec::new()) }
+fn g_checksum(_bytes: &[u8]) -> [u8; 32] {
+    unsafe {
+        let d = DIGESTS[if N_DIGEST < 3 { N_DIGEST } else { 2 }];
+        N_DIGEST += 1;
+        d
+    }
+}
+// the TOC under test is `empty_toc()` plus a symbolic checksum: its clone is the same thing
+// (the derived deep clone of the empty manifest vectors trips a spurious CBMC pointer check)
+fn g_toc_clone(t: &Toc) -> Toc {
+    let mut c = crate::memvid::lifecycle::empty_toc();
+    c.toc_checksum = t.toc_checksum;
+    c.replay_manifest = t.replay_manifest.clone();
+    c
+}
+fn g_catalog_clone(_c: &SegmentCatalog) -> SegmentCatalog { SegmentCatalog::default() }
+fn same(a: &[u8; 32], b: &[u8; 32]) -> bool {
+    let mut i = 0;
+    let mut eq = true;
+    while i < 32 {
+        if a[i] != b[i] { eq = false; }
+        i += 1;
+    }
+    eq
+}
+
+fn checksum_gate(legacy: bool) {
+        let mut toc = crate::memvid::lifecycle::empty_toc();
+        if !legacy { toc.replay_manifest = Some(crate::replay::ReplayManifest::default()); }
+        let stored: [u8; 32] = kani::any();
+        toc.toc_checksum = stored;
+        let d: [[u8; 32]; 3] = kani::any();
+        unsafe { DIGESTS = d; N_DIGEST = 0; }
+        let r = toc.verify_checksum();
+        let n = unsafe { N_DIGEST };
+        let matches = (n >= 1 && same(&stored, &d[0])) || (n >= 2 && same(&stored, &d[1])) || (n >= 3 && same(&stored, &d[2]));
+        match &r {
+            Ok(()) => assert!(matches, "[C20] Toc::verify_checksum accepted a TOC whose stored checksum matches none of the digests computed over its encodings"),
+            Err(_) => assert!(!matches, "[C20] Toc::verify_checksum rejected a TOC whose checksum matches one of its encodings"),
+        }
+        kani::cover!(r.is_ok() && n == if legacy { 3 } else { 1 }, "accepted (through the oldest legacy encoding when legacy)");
+        assert!(legacy || n == 1, "[C20] a TOC with a replay manifest was checked against a legacy encoding");
+        kani::cover!(r.is_err(), "mismatch rejected");
+        leak(r);
+        leak(toc);
+    }
+
+verif_proof! { [C20]
+    #[kani::unwind(34)]
+    #[kani::use_stub_set(crate::verif_env::memvid_stubs)]
+    #[kani::stub(crate::types::Toc::encode, g_encode_toc)]
+    #[kani::stub(crate::toc::LegacyTocV1::encode, g_encode_v1)]
+    #[kani::stub(crate::toc::LegacyTocV2::encode, g_encode_v2)]
+    #[kani::stub(crate::types::Toc::calculate_checksum, g_checksum)]
+    #[kani::stub(<crate::types::Toc as core::clone::Clone>::clone, g_toc_clone)]
+    #[kani::stub(<crate::types::SegmentCatalog as core::clone::Clone>::clone, g_catalog_clone)]
+    fn c20_toc_checksum_gate_current() { checksum_gate(false); }
+}
+verif_proof! { [C20]
+    #[kani::unwind(34)]
+    #[kani::use_stub_set(crate::verif_env::memvid_stubs)]
+    #[kani::stub(crate::types::Toc::encode, g_encode_toc)]
+    #[kani::stub(crate::toc::LegacyTocV1::encode, g_encode_v1)]
+    #[kani::stub(crate::toc::LegacyTocV2::encode, g_encode_v2)]
+    #[kani::stub(crate::types::Toc::calculate_checksum, g_checksum)]
+    #[kani::stub(<crate::types::Toc as core::clone::Clone>::clone, g_toc_clone)]
+    #[kani::stub(<crate::types::SegmentCatalog as core::clone::Clone>::clone, g_catalog_clone)]
+    fn c20_toc_checksum_gate_legacy() { checksum_gate(true); }
+}
